@@ -424,27 +424,27 @@ func (w *errWriter) Write(p []byte) (int, error) {
 //   - a read group auxiliary field must refer to a read group listed in the
 //     header and these must agree on platform unit and library.
 func (bh *Header) Validate(r *Record) error {
-	rp := r.AuxFields.Get(programTag)
+	rp := auxValue(r.AuxFields.Get(programTag))
 	found := false
 	for _, hp := range bh.Progs() {
-		if hp.UID() == rp.Value() {
+		if hp.UID() == rp {
 			found = true
 			break
 		}
 	}
 	if !found && len(bh.Progs()) != 0 {
-		return fmt.Errorf("sam: program uid not found: %v", rp.Value())
+		return fmt.Errorf("sam: program uid not found: %v", rp)
 	}
 
-	rg := r.AuxFields.Get(readGroupTag)
+	rg := auxValue(r.AuxFields.Get(readGroupTag))
 	found = false
 	for _, hg := range bh.RGs() {
-		if hg.Name() == rg.Value() {
-			rPlatformUnit := r.AuxFields.Get(platformUnitTag).Value()
+		if hg.Name() == rg {
+			rPlatformUnit := auxValue(r.AuxFields.Get(platformUnitTag))
 			if rPlatformUnit != hg.PlatformUnit() {
 				return fmt.Errorf("sam: mismatched platform for read group %s: %v != %v", hg.Name(), rPlatformUnit, hg.platformUnit)
 			}
-			rLibrary := r.AuxFields.Get(libraryTag).Value()
+			rLibrary := auxValue(r.AuxFields.Get(libraryTag))
 			if rLibrary != hg.Library() {
 				return fmt.Errorf("sam: mismatched library for read group %s: %v != %v", hg.Name(), rLibrary, hg.library)
 			}
@@ -453,10 +453,19 @@ func (bh *Header) Validate(r *Record) error {
 		}
 	}
 	if !found && len(bh.RGs()) != 0 {
-		return fmt.Errorf("sam: read group not found: %v", rg.Value())
+		return fmt.Errorf("sam: read group not found: %v", rg)
 	}
 
 	return nil
+}
+
+// auxValue returns the value of a, or nil if the record
+// does not have the field.
+func auxValue(a Aux) interface{} {
+	if a == nil {
+		return nil
+	}
+	return a.Value()
 }
 
 // Refs returns the Header's list of References. The returned slice
